@@ -223,6 +223,11 @@ Definition oracle_turns (sc : scase) (log : list ev) : bool :=
   (if t_copy (turn_verdict sc log) then true
    else match turns log with _ :: ts => early_end_ok (client_frames sc) ts | [] => true end).
 
+(* on its own: a connection that the server ends before the client's input is used up ended at a Terminate or at
+   a message it could not read (evaluated for COPY sessions too, where [oracle_turns] does not judge) *)
+Definition oracle_early_end (sc : scase) (log : list ev) : bool :=
+  match turns log with _ :: ts => early_end_ok (client_frames sc) ts | [] => true end.
+
 (* ---------- C05: the inside of a simple-query cycle ---------- *)
 Record qstate := { q_err : bool; q_exec : bool; q_rows : Z; q_closed : bool;
                    q_pend : Z (* 0 none, 1 DataRow, 2 Complete, 3 CopyIn *); q_ok : bool }.
